@@ -146,6 +146,21 @@ CHECKS = {
          'not decided.',
          'clang 14 AST/CFG; caller preconditions rank <= count <= 15 assumed',
          'DESIGN.md section 5, C19'),
+ 'C18': ('finite order abstraction: comparison sites cut out of the CFG and abstractly interpreted over all consistent '
+         '(length, length, first differing byte, sign) states against a reference order',
+         'Decides, exhaustively over the finite abstraction (about 1300 states per site, zero padding respected), that '
+         'each of the 12 hand-written comparison sites (key_tuple operators, three leaf lookups, insert rank, interior '
+         'routing and separator position, both split side decisions) implements the one bytewise-lexicographic order '
+         'for its role (R-CMP); that the sort and the cursor only use key_tuple operators (R-USE); and the slicing rule '
+         '(R-SLICE). How callers use the results and order across layers are not decided.',
+         'clang 14 AST/CFG; memcmp compares unsigned bytes; stored slices are zero padded',
+         'DESIGN.md section 5, C18'),
+ 'C20': ('accumulator-effect patterns over the three mem_usage bodies',
+         'Decides (weakly) that each node is counted once at an existing level, reserved grows by sizeof(own class), '
+         'used by that size minus a non-negative term, values by their allocated size (R-ACC), and the level / index '
+         'sets of the recursion (R-LVL) plus storage resolution (R-STG). Equality with an independent walk is not decided.',
+         'clang 14 AST/CFG/record layout; pattern-level rules',
+         'DESIGN.md section 5, C20'),
 }
 
 NOT_APPLICABLE = {
